@@ -99,7 +99,8 @@ func (s *supervisor) start() {
 		panic(err)
 	}
 	cmd := exec.Command(exe)
-	cmd.Env = append(os.Environ(), "C15_WORKER=1", "C15_WORKDIR="+s.workdir, "GOTRACEBACK=single")
+	// few runtime threads: under RLIMIT_AS a thread created while a 2 GiB block is live can fail (EAGAIN)
+	cmd.Env = append(os.Environ(), "C15_WORKER=1", "C15_WORKDIR="+s.workdir, "GOTRACEBACK=single", "GOMAXPROCS=2")
 	cmd.ExtraFiles = []*os.File{pw}
 	s.stderr = &tailBuf{}
 	cmd.Stderr = s.stderr
@@ -199,6 +200,11 @@ func firstLines(s string, n int) string {
 // the same decoder are then taken at face value.
 func (h *H) call(req request) (rep reply, status string, detail string) {
 	rep, status, detail = h.sup.do(req)
+	for try := 0; try < 3 && status == stCrash && (strings.Contains(detail, "pthread_create failed") || strings.Contains(detail, "newosproc")); try++ {
+		// the runtime could not start a thread inside the address-space limit: says nothing about the decoder
+		h.threadFailures++
+		rep, status, detail = h.sup.do(req)
+	}
 	if status != stTimeout || h.hangs[req.Dec] {
 		return
 	}
@@ -348,6 +354,8 @@ type H struct {
 	hangs       map[int]bool
 	unknown     map[int]int
 	retried     int
+
+	threadFailures int
 }
 
 func hexTrunc(b []byte) interface{} {
@@ -1355,22 +1363,22 @@ func main() {
 	kmPriv := repoFile("testdata/testkeys/km_priv_key.pem")
 	kmPub := repoFile("testdata/testkeys/km_pub_key.pem")
 	pemFiles := map[string][]byte{
-		"one CERTIFICATE block":                    pemBlock("CERTIFICATE", 64),
-		"two CERTIFICATE blocks":                   cat(pemBlock("CERTIFICATE", 64), pemBlock("CERTIFICATE", 10)),
-		"CERTIFICATE then private key":             cat(pemBlock("CERTIFICATE", 64), kmPriv),
-		"CERTIFICATE then public key":              cat(pemBlock("CERTIFICATE", 64), kmPub),
-		"three CERTIFICATEs then private key":      cat(pemBlock("CERTIFICATE", 1), pemBlock("CERTIFICATE", 0), pemBlock("CERTIFICATE", 300), kmPriv),
-		"private key then CERTIFICATE":             cat(kmPriv, pemBlock("CERTIFICATE", 64)),
-		"CERTIFICATE then garbage":                 cat(pemBlock("CERTIFICATE", 64), h.rbytes(40)),
-		"CERTIFICATE then truncated key":           cat(pemBlock("CERTIFICATE", 64), kmPriv[:len(kmPriv)/2]),
-		"TRUSTED CERTIFICATE then public key":      cat(pemBlock("TRUSTED CERTIFICATE", 20), kmPub),
-		"X509 CRL then key":                        cat(pemBlock("X509 CRL", 20), kmPriv),
-		"PRIVATE KEY block with random bytes":      pemBlock("PRIVATE KEY", 100),
-		"RSA PRIVATE KEY block with random bytes":  pemBlock("RSA PRIVATE KEY", 100),
-		"RSA PUBLIC KEY block with random bytes":   pemBlock("RSA PUBLIC KEY", 100),
-		"PUBLIC KEY block with random bytes":       pemBlock("PUBLIC KEY", 100),
-		"empty CERTIFICATE block":                  pemBlock("CERTIFICATE", 0),
-		"CERTIFICATE with headers":                 pem.EncodeToMemory(&pem.Block{Type: "CERTIFICATE", Headers: map[string]string{"Proc-Type": "4,ENCRYPTED"}, Bytes: h.rbytes(30)}),
+		"one CERTIFICATE block":                     pemBlock("CERTIFICATE", 64),
+		"two CERTIFICATE blocks":                    cat(pemBlock("CERTIFICATE", 64), pemBlock("CERTIFICATE", 10)),
+		"CERTIFICATE then private key":              cat(pemBlock("CERTIFICATE", 64), kmPriv),
+		"CERTIFICATE then public key":               cat(pemBlock("CERTIFICATE", 64), kmPub),
+		"three CERTIFICATEs then private key":       cat(pemBlock("CERTIFICATE", 1), pemBlock("CERTIFICATE", 0), pemBlock("CERTIFICATE", 300), kmPriv),
+		"private key then CERTIFICATE":              cat(kmPriv, pemBlock("CERTIFICATE", 64)),
+		"CERTIFICATE then garbage":                  cat(pemBlock("CERTIFICATE", 64), h.rbytes(40)),
+		"CERTIFICATE then truncated key":            cat(pemBlock("CERTIFICATE", 64), kmPriv[:len(kmPriv)/2]),
+		"TRUSTED CERTIFICATE then public key":       cat(pemBlock("TRUSTED CERTIFICATE", 20), kmPub),
+		"X509 CRL then key":                         cat(pemBlock("X509 CRL", 20), kmPriv),
+		"PRIVATE KEY block with random bytes":       pemBlock("PRIVATE KEY", 100),
+		"RSA PRIVATE KEY block with random bytes":   pemBlock("RSA PRIVATE KEY", 100),
+		"RSA PUBLIC KEY block with random bytes":    pemBlock("RSA PUBLIC KEY", 100),
+		"PUBLIC KEY block with random bytes":        pemBlock("PUBLIC KEY", 100),
+		"empty CERTIFICATE block":                   pemBlock("CERTIFICATE", 0),
+		"CERTIFICATE with headers":                  pem.EncodeToMemory(&pem.Block{Type: "CERTIFICATE", Headers: map[string]string{"Proc-Type": "4,ENCRYPTED"}, Bytes: h.rbytes(30)}),
 		"CERTIFICATE, text in between, CERTIFICATE": cat(pemBlock("CERTIFICATE", 8), []byte("some text\n"), pemBlock("CERTIFICATE", 8)),
 	}
 	for _, name := range sortedKeys(pemFiles) {
@@ -1433,6 +1441,7 @@ func main() {
 	c.Rep.Extra["max_alloc_per_decoder"] = h.maxAlloc
 	c.Rep.Extra["child_restarts"] = h.sup.starts - 1
 	c.Rep.Extra["not_reached"] = h.skipped
+	c.Rep.Extra["child_thread_start_failures_retried"] = h.threadFailures
 	c.Rep.Extra["timeouts_not_confirmed"] = h.retried - len(h.hangs)
 	c.Rep.Extra["seconds_per_decoder"] = h.seconds
 	c.Rep.Notes = append(c.Rep.Notes,
